@@ -1,5 +1,5 @@
 """Human-written level text per claimed property (consumed by gen_manifest.py)."""
-HOOK_COMMITS = ["e648131", "c2c8839", "e6e5513", "64250c5", "03f0d10"]
+HOOK_COMMITS = ["e648131", "c2c8839", "e6e5513", "64250c5", "03f0d10", "cd92619"]
 NOT_YET = {}
 META = {
     "C28": {
@@ -26,6 +26,11 @@ META = {
         "text": "Tick arithmetic incl. u32 wrap (a multiple of 61 within any 61 pops), service of the shared queue on such a pop, and idle theorem (a local pop returns none only if every queue is empty) for all reachable states with capacity >= 1. Tie: differential runs with long pop bursts and idle-sibling patterns; starvation counter and idle check on the implementation history.",
         "note": "Trusted: Lean kernel; models; capacity 0 idle case covered by correspondence only.",
         "design_ref": "DESIGN.md §4 C06",
+    },
+    "C15": {
+        "text": "Theorems on the pool model, for every N, d, t0: N >= 1 tasks that each sleep d, submitted to a pool with room for N workers, are all started in the first scheduling pass - each on its own worker, in order - and every one is parked with the wake-up time t0 + d, nothing stays queued and the clock has not moved (C15_n_sleepers_one_d, by induction over the queue with the loop-iteration lemma; C15_sleeps_overlap is the general invariant form); a blocking worker hands over to a fresh worker before control returns to the loop (C15_blocked_worker_hands_over); every worker whose time has come is woken in that same pass (C15_due_all_woken). Tie: a real, unstarted EventLoop driven turn by turn with a virtual clock, tasks blocking in the real hooked nanosleep; the finishing time of every task (rounds when N exceeds the pool size, 10 ms slices, computing tasks in between) is compared exactly with the model.",
+        "note": "Trusted: Lean kernel; hand-written pool model; the verif_loop hook; virtual clock. Partial: wall-clock behaviour of the running loop thread (jitter, epoll timeouts) is not in the model; the completion half of the scenario (all N results at t0 + d) is evaluated on instances, the general theorem covers start and wake-up times.",
+        "design_ref": "DESIGN.md I.3 / §4 C15",
     },
     "C16": {
         "text": "Theorem C16_spec_holds: for every kernel script (unbounded list of partial/EAGAIN/EINTR/error answers), wait script, buffer or iovec shape, blocking mode and time limit, the executable C16 specification (return = bytes moved; -1 only with nothing moved and the failing call's errno; zero-length => 0) has no violated clause on the model; the same Lean predicate is evaluated on the real calls' observed behaviour (14 hooked calls, scripted kernel through fn_ptr, byte-level placement check).",
